@@ -5,6 +5,7 @@ expression; (b) a guard family whose later operands are only defined when the ea
 probes (what message building evaluates must be a subset of what Python evaluated); (c) source layouts of the
 decorator."""
 import ast
+import os
 import itertools
 import json
 import re
@@ -133,6 +134,17 @@ GUARDS = [
     "{'k': pr(0, x) and pr(1, 10 // x)}['k'] > 100",
     "f'{pr(0, x) and pr(1, 10 // x)}' == 'q'",
     "(t := pr(0, x) and pr(1, 10 // x)) > 100",
+    # operands inside a comprehension which do not depend on the loop variables: whether Python evaluates them depends on
+    # the items (and on there being any)
+    "all(v > 0 or pr(0, True) for v in xs) and pr(1, False)",
+    "all(v < 0 and pr(0, True) for v in xs) or pr(1, False)",
+    "all(0 < v < pr(0, 100) for v in xs) and pr(1, False)",
+    "[pr(0, 1) for v in xs if v < 0] == [] and pr(1, False)",
+    "all(v > 0 for v in xs if pr(0, True)) and not xs and pr(1, False)",
+    "[v for v in xs for w in pr(0, [1])] == [] and pr(1, False)",
+    "len({pr(0, 1) for v in xs if v < 0}) == 0 and pr(1, False)",
+    "{v: pr(0, 1) for v in xs if v < 0} == {} and pr(1, False)",
+    "not any(v < 0 and pr(0, True) for v in xs) and pr(1, False)",
     # a defaulted parameter of the condition itself (kd=0) in front of the guard
     "pr(0, kd < 1) and pr(1, x != 0) and pr(2, 10 // x > 100)",
     "kd < 1 and x != 0 and pr(0, 10 // x > 100)",
@@ -252,6 +264,9 @@ def layouts():
     L.append(("string_line_at_column0", lambda d, c, desc: ["@{}(lambda x, xs: 'z' != \"\"\"a".format(d), "<COL0>b\"\"\" and ({}))".format(c)]))
     L.append(("string_line_like_comment", lambda d, c, desc: ["@{}(lambda x, xs: 'z' != \"\"\"a".format(d), "    # b\"\"\" and ({}))".format(c)]))
     L.append(("string_line_indented", lambda d, c, desc: ["@{}(lambda x, xs: 'z' != \"\"\"a".format(d), "    b\"\"\" and ({}))".format(c)]))
+    # a plain string literal continued with a backslash: the continuation line belongs to the literal as well
+    L.append(("string_backslash_continued", lambda d, c, desc: ["@{}(lambda x, xs: 'z' != 'a\\".format(d), "    b' and ({}))".format(c)]))
+    L.append(("string_backslash_continued_column0", lambda d, c, desc: ["@{}(lambda x, xs: 'z' != 'a\\".format(d), "<COL0>b' and ({}))".format(c)]))
     L.append(("error_kw_after", lambda d, c, desc: ["@{}(lambda x, xs: {}, error=MyErr)".format(d, c)]))
     return L
 
@@ -278,6 +293,7 @@ def render_layout(layout_fn, alias, cond, neighbours, scope, target):
     if any("@M or" in ln for ln in deco):
         c = "(M @ M or " + c + ")"
     string_layout = len(deco) == 2 and deco[0].endswith('"""a')
+    backslash_layout = len(deco) == 2 and deco[0].endswith("'a\\")
     if is_inv:
         deco = [ln.replace("lambda x, xs:", "lambda self:") for ln in deco]
     other_i = "@icontract.invariant(lambda self: True)" if is_inv else "@icontract.require(lambda x: True)"
@@ -314,6 +330,10 @@ def render_layout(layout_fn, alias, cond, neighbours, scope, target):
         second = deco[1]
         tail = second[len("<COL0>"):] if second.startswith("<COL0>") else pad + second
         c = "'z' != {!r} and ({})".format("a\n" + tail.split('"""')[0], c)
+    if backslash_layout:
+        second = deco[1]
+        tail = second[len("<COL0>"):] if second.startswith("<COL0>") else pad + second
+        c = "'z' != {!r} and ({})".format("a" + tail.split("'")[0], c)
     body = [(ln.replace("<COL0>", "") if ln.startswith("<COL0>") else (pad + ln if ln else "")) for ln in block]
     name = "K" if (is_inv) else "f"
     if scope == "module":
@@ -724,6 +744,91 @@ def check_specials(acc):
         core.unload_source(ns)
 
 
+# ---------------------------------------------------------------------------------------------
+# (h) the declaring module is not a plain file: imported from a zip archive (zipapp, pex), source reachable only through the loader
+
+ZIP_MOD = '''\
+import icontract
+@icontract.require(lambda x: x > 0)
+def pre(x):
+    return x
+@icontract.ensure(
+    lambda result:
+    result > 100)
+def post(x):
+    return x
+@icontract.invariant(lambda self: self.x > 0)
+class K:
+    def __init__(self, x):
+        self.x = x
+    @icontract.require(lambda self, y: y > self.x)
+    def m(self, y):
+        return y
+'''
+ZIP_CASES = [
+    ("pre", lambda m: m.pre(-1), "x > 0"),
+    ("post", lambda m: m.post(1), "result > 100"),
+    ("invariant", lambda m: m.K(-1), "self.x > 0"),
+    ("method", lambda m: m.K(5).m(1), "y > self.x"),
+]
+
+
+def check_zip(acc):
+    import importlib
+    import linecache
+    import shutil
+    import sys
+    import tempfile
+    import zipfile
+    import icontract
+
+    tmp = tempfile.mkdtemp(prefix="verif_c07zip_")
+    try:
+        for cache_mode in ("as_imported", "linecache_cleared"):
+            modname = "c07zipmod_{}".format(cache_mode)
+            zpath = os.path.join(tmp, modname + ".zip")
+            with zipfile.ZipFile(zpath, "w") as zf:
+                zf.writestr(modname + ".py", ZIP_MOD)
+            sys.path.insert(0, zpath)
+            try:
+                importlib.invalidate_caches()
+                try:
+                    mod = importlib.import_module(modname)
+                except BaseException as e:  # noqa
+                    acc.case(("zip", cache_mode, "import"), True, 1, type(e).__name__)
+                    acc.violation(core.Violation(PROP, "class_definition_failed", {"part": "zip", "case": "import", "cache": cache_mode},
+                                                 "importing a module with contracts from a zip archive failed: {!r}".format(e),
+                                                 spec={"part": "zip"}, script=ZIP_MOD))
+                    continue
+                if cache_mode == "linecache_cleared":
+                    linecache.clearcache()
+                for name, thunk, text in ZIP_CASES:
+                    def go():
+                        try:
+                            return ("ret", thunk(mod))
+                        except BaseException as e:  # noqa
+                            return ("exc", e)
+                    out = core.fresh_ctx_run(go)
+                    acc.case(("zip", cache_mode, name), True, 1, out[0] if out[0] != "exc" else type(out[1]).__name__)
+                    bad = None
+                    if out[0] != "exc" or type(out[1]) is not icontract.ViolationError:
+                        bad = ("violation_replaced_by_other_exception", "expected ViolationError got {!r} (cause {!r})".format(
+                            out[1], getattr(out[1], "__cause__", None)))
+                    elif text not in str(out[1]) or not str(out[1]).startswith("File "):
+                        bad = ("condition_text_differs", "the message does not carry the location and the text {!r}: {!r}".format(text, str(out[1])))
+                    if bad:
+                        acc.violation(core.Violation(PROP, bad[0], {"part": "zip", "case": name, "cache": cache_mode},
+                                                     "module imported from a zip archive ({}, {}): {}".format(name, cache_mode, bad[1]),
+                                                     spec={"part": "zip"}, script=ZIP_MOD))
+            finally:
+                sys.path.remove(zpath)
+                sys.modules.pop(modname, None)
+                sys.path_importer_cache.pop(zpath, None)
+        acc.sample({"part": "zip", "cases": [c[0] for c in ZIP_CASES]}, cap=1)
+    finally:
+        shutil.rmtree(tmp, ignore_errors=True)
+
+
 def work(args):
     import warnings
     warnings.simplefilter("ignore", SyntaxWarning)
@@ -744,6 +849,8 @@ def work(args):
             check_private_names(acc)
         elif kind == "specials":
             check_specials(acc)
+        elif kind == "zip":
+            check_zip(acc)
         else:
             for case in payload:
                 check_layout(case, acc, lay_by_name)
@@ -760,6 +867,7 @@ def run(tier, t0):
     items.append(("kinds", None))
     items.append(("private", None))
     items.append(("specials", None))
+    items.append(("zip", None))
     lc = layout_cases(tier)
     items += [("layout", lc[i:i + 40]) for i in range(0, len(lc), 40)]
     tot = core.merge(core.pmap(work, core.rotate(items)))
@@ -800,6 +908,8 @@ def replay(path):
         check_private_names(acc)
     elif data["part"] == "specials":
         check_specials(acc)
+    elif data["part"] == "zip":
+        check_zip(acc)
     else:
         idx = {"require": 0, "ensure": 7, "invariant": 9}[data["role"]]
         check_batch_a([(idx, ("?", data["cond"], 0, data["cond"]))], acc, expr.valuations())
